@@ -18,6 +18,7 @@ from . import integrate_kit as ik
 from . import solverkit, solvers, steps
 
 F = Fraction
+SIZE_LIMIT = 20000         # terms of one canonical form; the unchanged tree stays below a tenth of it (largest: 1506, R03.11 thorough)
 
 
 class _Hooks(solverkit.StepHooks):
@@ -49,6 +50,10 @@ class _Hooks(solverkit.StepHooks):
         return solverkit.StepHooks.external_call(self, interp, dotted, args, kwargs, node, fi)
 
 
+class _OffGrid(Exception):
+    pass
+
+
 def solve(model, dom, sc, ts, dt, y0=None, extra0=None, sde=None, bm=None):
     """(list of outputs, extra solver state) of sc's solver over the output times `ts` with step `dt`."""
     sde = sde or solverkit.make_sde()
@@ -57,6 +62,7 @@ def solve(model, dom, sc, ts, dt, y0=None, extra0=None, sde=None, bm=None):
     g_ndim = 3 if sc.noise_type == dom.noise_types.get("scalar") else 2
     it = Interp(model, _Hooks(g_ndim))
     it.max_loop = 4096
+    it.size_limit = SIZE_LIMIT
     so = solverkit.solver_obj(model, sc.cls, sde, bm, dict(sc.options),
                               extra_attrs={"dt": F(dt), "adaptive": False, "dt_min": F(1, 10 ** 5)})
     from ..interp import BoundMethod
@@ -74,6 +80,47 @@ def solve(model, dom, sc, ts, dt, y0=None, extra0=None, sde=None, bm=None):
     elif ik.is_output_buffer(ys):
         ys = [v for _, v in ik.output_writes(ys)]
     return list(ys), tuple(extra) if isinstance(extra, (tuple, list)) else (extra,)
+
+
+def step_trace(model, dom, sc, ts, dt):
+    """The (t0, t1) pairs the driver hands to `self.step` over the output times `ts`, in order: the real `integrate` with the
+    step function replaced by a recorder that returns fresh symbols (cheap whatever the solver)."""
+    from ..interp import Intrinsic
+    sde = solverkit.make_sde()
+    sde.attrs["sde_type"], sde.attrs["noise_type"] = sc.sde_type, sc.noise_type
+    bm = solverkit.make_bm(solverkit.BMLog())
+    it = Interp(model, _Hooks(2))
+    it.max_loop = 4096
+    so = solverkit.solver_obj(model, sc.cls, sde, bm, dict(sc.options),
+                              extra_attrs={"dt": F(dt), "adaptive": False, "dt_min": F(1, 10 ** 5)})
+    pairs = []
+
+    def record(interp, args, kwargs, node, fi):
+        t0, t1 = args[0], args[1]
+        pairs.append(tuple(x.const_value() if isinstance(x, Rat) else x for x in (t0, t1)))
+        return nf.sym(f"Y{len(pairs)}"), (nf.sym(f"X{len(pairs)}"),)
+
+    so.attrs["step"] = Intrinsic("step", record, params=["t0", "t1", "y0", "extra0"])
+    integ = model.func(ik.BASE_SOLVER, "BaseSDESolver.integrate")
+    it.call_function(integ, [so, nf.sym("y0"), list(ts), (nf.sym("X0"),)], {})
+    return pairs
+
+
+def off_grid(model, dom, sc, ts, dt, T):
+    """None if the driver's steps over `ts` are the consecutive points of ts[0] + k dt clipped to T; else a description."""
+    grid = []
+    t = ts[0]
+    while t < T:
+        nxt = min(t + dt, T)
+        grid.append((t, nxt))
+        t = nxt
+    got = step_trace(model, dom, sc, ts, dt)
+    if got == grid:
+        return None
+    k = next((i for i, (a, b) in enumerate(zip(got, grid)) if a != b), min(len(got), len(grid)))
+    took = f"steps from {got[k][0]} to {got[k][1]}" if k < len(got) else "stops"
+    due = f"({grid[k][0]}, {grid[k][1]})" if k < len(grid) else "nothing"
+    return f"step {k + 1} of the solve over ts = [{', '.join(str(x) for x in ts)}]: the driver {took} where the grid ts[0] + k dt has {due}"
 
 
 def heavy(model, dom, sc):
@@ -172,9 +219,21 @@ def r12_10(ctx):
                 grid.append(T)
             construct = f"{sc.step_fi.key}::R12.10::{sc.label}::T={T}"
             try:
+                bad = []
+                mixed = sorted({t for t in (F(0), F(1, 16), F(1, 8), F(5, 32), F(7, 32), F(9, 32), T) if t <= T})
+                # first the clock alone (the step function replaced by a recorder): "the solver advances on the grid
+                # ts[0] + k dt regardless of the requested output times".  A driver that steps elsewhere is reported here;
+                # its states are not evaluated (off the grid the number of steps, and with it the size of the canonical
+                # forms, is not bounded by the horizon)
+                for ts in (grid, [F(0), T], mixed, [F(1, 32) + t for t in grid], [F(-3, 16) + t for t in grid]):
+                    why = off_grid(model, dom, sc, ts, dt, ts[0] + T)
+                    if why:
+                        bad.append(why)
+                        break
+                if bad:
+                    raise _OffGrid()
                 ref, ref_extra = solve(model, dom, sc, grid, dt)
                 state = dict(zip(grid, ref))
-                bad = []
                 # the grid is ts[0] + k dt, whatever ts[0] is: the driver's grid states are the step function chained along
                 # that grid by this rule's own loop, also for a start that is no multiple of dt and for a negative one
                 for t_start in (F(1, 32), F(-3, 16)):
@@ -189,8 +248,7 @@ def r12_10(ctx):
                 if not same(ref[0], nf.sym("y0")):
                     bad.append("ys[0] is not y0")
                 for label, ts in (("end points only", [F(0), T]),
-                                  ("outputs on the grid, inside steps and twice inside one step",
-                                   sorted({t for t in (F(0), F(1, 16), F(1, 8), F(5, 32), F(7, 32), F(9, 32), T) if t <= T}))):
+                                  ("outputs on the grid, inside steps and twice inside one step", mixed)):
                     ys, extra = solve(model, dom, sc, ts, dt)
                     if len(ys) != len(ts):
                         bad.append(f"{label}: {len(ys)} outputs for {len(ts)} output times")
@@ -207,6 +265,8 @@ def r12_10(ctx):
                             break
                     if not same(extra, ref_extra):
                         bad.append(f"{label}: the extra solver state handed back differs from the reference solve's")
+            except _OffGrid:
+                pass
             except SimRaise as e:
                 bad = [f"the solve raises {e.exc_name}: {e.message}"]
             n += 1
